@@ -183,6 +183,33 @@ func (p *c17) build(seed uint64, tier string) []SendScenario {
 					s.Server.TLS.Cert = "stall"
 					out = append(out, s)
 				}
+				if op == "dialandsend" {
+					// nothing to send: the call is dial + QUIT, and the server goes silent at QUIT
+					for _, how := range []string{"stall", "start"} {
+						s := base("empty-batch:QUIT/" + how)
+						s.Batches = [][]MsgSpec{{}}
+						a := refsmtpd.Action{}
+						if how == "stall" {
+							a.Kind = "stall"
+						} else {
+							a.StallWhere = how
+						}
+						s.Server.Rules = []refsmtpd.Rule{{Verb: "QUIT", Nth: 1, Action: a}}
+						out = append(out, s)
+					}
+				}
+				if op == "dial" {
+					// the Client is dialled again while its earlier session is still open, and the
+					// server of that earlier session has gone silent: whatever the Client does
+					// about the old session, the second DialWithContext is bounded as well
+					for _, verb := range []string{"QUIT", "NOOP", "RSET"} {
+						s := base("redial:old-session-silent-at-" + verb + "/stall")
+						s.Op = "dial-redial-send"
+						s.Batches = [][]MsgSpec{{SimpleMsg("m1", "a@dest.example")}}
+						s.Server.Rules = []refsmtpd.Rule{{Verb: verb, Nth: 1, Conn: 1, Action: refsmtpd.Action{Kind: "stall"}}}
+						out = append(out, s)
+					}
+				}
 				// the peer never answers the dial function itself (a dialer that negotiates before
 				// it returns): the only bound it has is the context the Client hands it
 				if op == "dial" || op == "dialandsend" {
